@@ -70,6 +70,17 @@ def call(fn, *a):
     return ('err', 'Exception:' + type(e).__name__)
 
 
+def ref_in(j, c):
+  """Independent reading of in_filter's documented meaning, on the canonical JSON of a filter."""
+  if isinstance(j, bool):
+    return j
+  if isinstance(j, str):
+    return c == j
+  if isinstance(j, dict):
+    return not ref_in(j['deny'], c)
+  return c in list(j)
+
+
 def base_filters(names):
   out = [True, False]
   out += list(names)
@@ -163,6 +174,15 @@ def check_pair_batch(ctx, drv, pairs, probes, tag):
     ctx.count('linen_pair_depth', f"{_depth(rec['a'])}+{_depth(rec['b'])}")
     ina = [x[1] for x in rec['ina']]
     inb = [x[1] for x in rec['inb']]
+    bad_in = False
+    for nm, j, got_in in (('a', rec['a'], rec['ina']), ('b', rec['b'], rec['inb'])):
+      ref = [('ok', ref_in(j, c)) for c in probes]
+      if got_in != ref:
+        wrong = [c for c, g, r in zip(probes, got_in, ref) if g != r]
+        ctx.violation('linen-in_filter-wrong', f'in_filter({j!r}, c) differs from "True / equal / contained / not denied" at names {wrong}', dict(case, filter=j, got=got_in))
+        bad_in = True
+    if bad_in:
+      continue
     if rec['m_ina'] != ('ok', ina) or rec['m_inb'] != ('ok', inb):
       ctx.disagreements_checked += 1
       ctx.violation('linen-in_filter-model-mismatch', f'in_filter differs from the model on {case}', case, concrete=False)
@@ -226,6 +246,9 @@ def check_empty_all(ctx, drv, filters, probes):
     emp = call(scope.is_filter_empty, f)
     ins = [call(scope.in_filter, f, c)[1] for c in probes]
     case = {'kind': 'linen-empty', 'f': j, 'probes': probes}
+    if ins != [ref_in(j, c) for c in probes]:
+      ctx.violation('linen-in_filter-wrong', f'in_filter({j!r}, c) over {probes} = {ins}, differs from "True / equal / contained / not denied"', dict(case, got=ins))
+      continue
     ctx.case(case, nontrivial=not isinstance(j, bool))
     ctx.count('linen_empty_depth', _depth(j))
     if emp != ('ok', not any(ins)):
@@ -585,7 +608,7 @@ def run(ctx):
   for i in range(0, len(pairs), 2000):
     check_pair_batch(ctx, drv, pairs[i : i + 2000], probes, 'exh')
   # random: other syntactic forms, deeper nesting, more names
-  names2 = names + ['params', 'batch_stats', 'cache', '']
+  names2 = names + ['params', 'params_axes', 'batch_stats', 'stats', 'cache', '']
   n_rand = 1500 if not thorough else 20000
   rp = [(random_filter(rng, names2, 6), random_filter(rng, names2, 6)) for _ in range(n_rand)]
   probes2 = names2 + ['zz', 'fresh_' + str(rng.randrange(10**6))]
